@@ -237,37 +237,38 @@ func checkC17(c *Check) {
 			if len(r.Results) != 2 || !isNilConst(r.Results[1]) {
 				continue
 			}
-			parts := concatParts(r.Results[0])
-			at := -1
-			for i, pt := range parts {
-				if cst, ok := pt.(*ssa.Const); ok && cst.Value != nil && cst.Value.ExactString() == `"@"` {
-					at = i
-				}
-			}
-			if at < 0 {
-				continue // postmaster-style address without a domain
-			}
-			n++
-			for _, lv := range parts[:at] {
-				for _, ch := range stringChains(lv, 12) {
-					if len(ch.Steps) != 0 {
-						msg = "the local part is transformed by " + describeChain(ch.Steps)
+			for _, parts := range concatPartsAlts(r.Results[0]) {
+				at := -1
+				for i, pt := range parts {
+					if cst, ok := pt.(*ssa.Const); ok && cst.Value != nil && cst.Value.ExactString() == `"@"` {
+						at = i
 					}
 				}
-			}
-			for _, dv := range parts[at+1:] {
-				for _, ch := range stringChains(dv, 12) {
-					sawReq := false
-					for _, st := range ch.Steps {
-						if !allowed[st.Callee] {
-							msg = "the domain passes through " + st.Callee[strings.LastIndex(st.Callee, "/")+1:] + ", which is not an encoding step (case folding / trimming / key normalisation changes the address: converting back does not return the original)"
-						}
-						if strings.HasSuffix(st.Callee, required) {
-							sawReq = true
+				if at < 0 {
+					continue // postmaster-style address without a domain
+				}
+				n++
+				for _, lv := range parts[:at] {
+					for _, ch := range stringChains(lv, 12) {
+						if len(ch.Steps) != 0 {
+							msg = "the local part is transformed by " + describeChain(ch.Steps)
 						}
 					}
-					if !sawReq {
-						msg = "the domain is not passed through idna." + required
+				}
+				for _, dv := range parts[at+1:] {
+					for _, ch := range stringChains(dv, 12) {
+						sawReq := false
+						for _, st := range ch.Steps {
+							if !allowed[st.Callee] {
+								msg = "the domain passes through " + st.Callee[strings.LastIndex(st.Callee, "/")+1:] + ", which is not an encoding step (case folding / trimming / key normalisation changes the address: converting back does not return the original)"
+							}
+							if strings.HasSuffix(st.Callee, required) {
+								sawReq = true
+							}
+						}
+						if !sawReq {
+							msg = "the domain is not passed through idna." + required
+						}
 					}
 				}
 			}
@@ -457,7 +458,9 @@ func c17EscapeState(c *Check) {
 			continue
 		}
 		// lowered on every path from a raised state to the point where a character is written
-		writes := r.Calls(func(info *types.Info, call *ast.CallExpr) bool { return methodName(call) == "WriteRune" || methodName(call) == "WriteString" || methodName(call) == "WriteByte" })
+		writes := r.Calls(func(info *types.Info, call *ast.CallExpr) bool {
+			return methodName(call) == "WriteRune" || methodName(call) == "WriteString" || methodName(call) == "WriteByte"
+		})
 		lowers := r.Assigns(func(l, rhs ast.Expr) bool {
 			if objOf(info, l) != fl || rhs == nil {
 				return false
@@ -819,70 +822,71 @@ func c17Chains(c *Check) {
 			if cst, ok := v.(*ssa.Const); ok && cst.Value != nil && cst.Value.ExactString() == `""` {
 				continue // null return path
 			}
-			parts := concatParts(v)
-			// split parts at the "@" constant
-			at := -1
-			for i, pt := range parts {
-				if cst, ok := pt.(*ssa.Const); ok && cst.Value != nil && cst.Value.ExactString() == `"@"` {
-					at = i
+			for _, parts := range concatPartsAlts(v) {
+				// split parts at the "@" constant
+				at := -1
+				for i, pt := range parts {
+					if cst, ok := pt.(*ssa.Const); ok && cst.Value != nil && cst.Value.ExactString() == `"@"` {
+						at = i
+					}
 				}
-			}
-			var local, domain []ssa.Value
-			if at >= 0 {
-				local, domain = parts[:at], parts[at+1:]
-			} else {
-				local = parts
-			}
-			for _, lv := range local {
-				for _, ch := range stringChains(lv, 12) {
-					// origin must be Extract#0 of Split(param)
-					okOrigin := false
-					if ex, isEx := ch.Origin.(*ssa.Extract); isEx && ex.Index == 0 {
-						if call, isCall := ex.Tuple.(*ssa.Call); isCall && ssaCalleeName(&call.Call) == splitFn {
-							okOrigin = true
-						}
-					}
-					if name == "CleanDomain" {
-						// the local part is passed through untouched by design
-						c.Hold("R4", "address.CleanDomain:local", r.Pos(), okOrigin && len(ch.Steps) == 0, "local part of CleanDomain is not the untouched mailbox of Split "+describeChain(ch.Steps))
-						continue
-					}
-					if !okOrigin {
-						c.Hold("R4", "address.ForLookup:local", r.Pos(), false, "local part does not derive from Split(addr)")
-						continue
-					}
-					ok, msg := foldedOK(ch.Steps, false)
-					c.Hold("R4", "address.ForLookup:local", r.Pos(), ok, "local part: "+msg+" "+describeChain(ch.Steps))
+				var local, domain []ssa.Value
+				if at >= 0 {
+					local, domain = parts[:at], parts[at+1:]
+				} else {
+					local = parts
 				}
-			}
-			for _, dv := range domain {
-				for _, ch := range stringChains(dv, 12) {
-					// origin must be Extract#1 of Split
-					okOrigin := false
-					if ex, isEx := ch.Origin.(*ssa.Extract); isEx && ex.Index == 1 {
-						if call, isCall := ex.Tuple.(*ssa.Call); isCall && ssaCalleeName(&call.Call) == splitFn {
-							okOrigin = true
-						}
-					}
-					if !okOrigin {
-						c.Hold("R4", "address."+name+":domain", r.Pos(), false, "domain part does not derive from Split(addr): "+ch.Origin.String())
-						continue
-					}
-					if name == "ForLookup" {
-						// delegation to dns.ForLookup (whose own chain is checked above)
-						deleg := false
-						for _, s := range ch.Steps {
-							if s.Callee == dnsFL {
-								deleg = true
+				for _, lv := range local {
+					for _, ch := range stringChains(lv, 12) {
+						// origin must be Extract#0 of Split(param)
+						okOrigin := false
+						if ex, isEx := ch.Origin.(*ssa.Extract); isEx && ex.Index == 0 {
+							if call, isCall := ex.Tuple.(*ssa.Call); isCall && ssaCalleeName(&call.Call) == splitFn {
+								okOrigin = true
 							}
 						}
-						if deleg {
-							c.Hold("R4", "address.ForLookup:domain", r.Pos(), true, "")
+						if name == "CleanDomain" {
+							// the local part is passed through untouched by design
+							c.Hold("R4", "address.CleanDomain:local", r.Pos(), okOrigin && len(ch.Steps) == 0, "local part of CleanDomain is not the untouched mailbox of Split "+describeChain(ch.Steps))
 							continue
 						}
+						if !okOrigin {
+							c.Hold("R4", "address.ForLookup:local", r.Pos(), false, "local part does not derive from Split(addr)")
+							continue
+						}
+						ok, msg := foldedOK(ch.Steps, false)
+						c.Hold("R4", "address.ForLookup:local", r.Pos(), ok, "local part: "+msg+" "+describeChain(ch.Steps))
 					}
-					ok, msg := foldedOK(ch.Steps, true)
-					c.Hold("R4", "address."+name+":domain", r.Pos(), ok, "domain part: "+msg+" "+describeChain(ch.Steps))
+				}
+				for _, dv := range domain {
+					for _, ch := range stringChains(dv, 12) {
+						// origin must be Extract#1 of Split
+						okOrigin := false
+						if ex, isEx := ch.Origin.(*ssa.Extract); isEx && ex.Index == 1 {
+							if call, isCall := ex.Tuple.(*ssa.Call); isCall && ssaCalleeName(&call.Call) == splitFn {
+								okOrigin = true
+							}
+						}
+						if !okOrigin {
+							c.Hold("R4", "address."+name+":domain", r.Pos(), false, "domain part does not derive from Split(addr): "+ch.Origin.String())
+							continue
+						}
+						if name == "ForLookup" {
+							// delegation to dns.ForLookup (whose own chain is checked above)
+							deleg := false
+							for _, s := range ch.Steps {
+								if s.Callee == dnsFL {
+									deleg = true
+								}
+							}
+							if deleg {
+								c.Hold("R4", "address.ForLookup:domain", r.Pos(), true, "")
+								continue
+							}
+						}
+						ok, msg := foldedOK(ch.Steps, true)
+						c.Hold("R4", "address."+name+":domain", r.Pos(), ok, "domain part: "+msg+" "+describeChain(ch.Steps))
+					}
 				}
 			}
 		}
@@ -945,7 +949,6 @@ func splitComplement(p *Prog, fi *FuncInfo) (bool, string) {
 	}
 	return true, ""
 }
-
 
 // lowersASCIIBody: the body lowers exactly the ASCII capitals: it compares a character with the constants 'A' and 'Z'
 // and adds the distance to the lower-case letters.
